@@ -221,6 +221,38 @@ func checkC18(c *ev.Ctx) {
 		}
 		c.Count("block_headers_checked", 1)
 	}
+	// the look-ahead buffer larger than the dictionary: the size a block header declares must
+	// cover the window the encoder really searches - judged by the strict reference decoder on a
+	// block of noise repeated at distances between the configured capacity and the buffer size
+	for i, p2 := range [][2]int{{4096, 8192}, {4096, 65536}, {8192, 65536}, {12289, 40000}, {65536, 1 << 20}} {
+		for m := 0; m < 2; m++ {
+			id := fmt.Sprintf("hdr-bufsize-%d-%d", i, m)
+			noteCase(id)
+			if !want(c, id) {
+				continue
+			}
+			dc, bs := p2[0], p2[1]
+			var all []byte
+			for _, l := range []int{dc + 1, (dc + bs) / 2, bs - 1} {
+				x := gen.Data(r, "random", l)
+				all = append(append(all, x...), x...)
+			}
+			b := libWriteXZ(xz.WriterConfig{DictCap: dc, BufSize: bs, Matcher: lzma.MatchAlgorithm(m)}, all)
+			out, ss, err := ref.DecodeXZ(b, 0)
+			c.Eval("hdr-bufsize", true)
+			c.Count("bufsize_above_dictcap_streams_checked", 1)
+			if err != nil || !bytes.Equal(out, all) {
+				var codes []int
+				for _, st := range ss {
+					for _, bl := range st.Blocks {
+						codes = append(codes, int(bl.DictCode))
+					}
+				}
+				c.Violation("block-header-dict-byte", map[string]any{"case_id": id, "dictcap": dc, "bufsize": bs, "matcher": m, "declared_codes_seen": codes,
+					"what": fmt.Sprintf("DictCap %d with BufSize %d: the stream is not decodable within the dictionary size its block header declares (code for %d expected): %v", dc, bs, dc, err)})
+			}
+		}
+	}
 	// writers whose sink uses the library itself while a Write call is in progress: a second
 	// writer with another capacity emits its own block headers from inside the sink (side
 	// activity), or the sink of one xz writer is another xz writer (xz in xz, small blocks so
